@@ -3,8 +3,8 @@ package main
 // C01: generator of RDB files (own serializer, independent of the repo) and runner of the real loader.
 
 import (
-	"bytes"
 	"fmt"
+	"io"
 	"math/rand"
 	"strings"
 
@@ -13,7 +13,7 @@ import (
 
 func init() {
 	props["C01"] = &prop{gen: genC01, run: runC01, concurrent: 8,
-		exclusive: func(f []string) bool { return len(f) > 2 && f[2] == "mut" }}
+		exclusive: func(f []string) bool { return len(f) > 2 && strings.HasPrefix(f[2], "mut") }}
 }
 
 const realChunkLimit = 16 * 1024 * 1024
@@ -423,6 +423,17 @@ func (g *rdbGen) item() []byte {
 }
 
 func (g *rdbGen) file() []byte {
+	b := g.fileCore()
+	// bytes after the checksum must stay unread
+	tail := g.r.Intn(3)
+	for i := 0; i < tail*3; i++ {
+		b = append(b, byte(g.r.Intn(256)))
+	}
+	return b
+}
+
+// fileCore: header, items, EOF opcode, checksum — nothing behind it
+func (g *rdbGen) fileCore() []byte {
 	ver := 1 + g.r.Intn(9)
 	b := []byte(fmt.Sprintf("REDIS%04d", ver))
 	n := g.r.Intn(9)
@@ -433,11 +444,6 @@ func (g *rdbGen) file() []byte {
 	sum := crc64bitwise(0, b)
 	for k := 0; k < 8; k++ {
 		b = append(b, byte(sum>>(8*uint(k))))
-	}
-	// bytes after the checksum must stay unread
-	tail := g.r.Intn(3)
-	for i := 0; i < tail*3; i++ {
-		b = append(b, byte(g.r.Intn(256)))
 	}
 	return b
 }
@@ -502,6 +508,10 @@ func genC01(g *gen) {
 		}
 		f := rg.file()
 		g.emit("rdb %d wf %s", realChunkLimit, hx(f))
+		if i%5 == 1 {
+			// the same well-formed file through another delivery pattern of the underlying io.Reader
+			g.emit("rdb %d wf/%s %s", realChunkLimit, deliveryModes[g.r.Intn(len(deliveryModes))]+fmt.Sprint(g.r.Intn(1000)), hx(f))
+		}
 		if i%100 == 0 {
 			g.emit("rdbchan %d wf %s", realChunkLimit, hx(f))
 		}
@@ -523,7 +533,11 @@ func genC01(g *gen) {
 		default:
 			f[g.r.Intn(len(f))] = byte(g.r.Intn(256))
 		}
-		g.emit("rdb %d mut %s", realChunkLimit, hx(f))
+		if i%4 == 1 {
+			g.emit("rdb %d mut/%s %s", realChunkLimit, deliveryModes[g.r.Intn(len(deliveryModes))]+fmt.Sprint(g.r.Intn(1000)), hx(f))
+		} else {
+			g.emit("rdb %d mut %s", realChunkLimit, hx(f))
+		}
 	}
 	// header corner cases
 	for _, h := range []string{"REDIS0000", "REDIS0010", "REDIS+009", "REDIS-001", "REDIS 009", "REDIS00a9", "REDIX0009", "REDIS9", "REDIS0009", "REDIS+0_9"} {
@@ -553,12 +567,75 @@ func valRepr(v []byte) string {
 	return fmt.Sprintf("%d:%016x", len(v), fnv1a(v))
 }
 
+// delivery: an io.Reader over the file that hands the bytes out in the pattern named by the case flag
+// (`wf`, `mut`, `hdr` = everything asked for, then (0, EOF); `/eofN` = the last bytes come together with io.EOF;
+// `/oneN` = one byte per Read; `/rndN` = random short reads, seed N, final bytes with or without EOF; `/zerN` =
+// random short reads interleaved with (0, nil) returns).  What was parsed must not depend on it.
+var deliveryModes = []string{"eof", "one", "rnd", "zer"}
+
+type delivery struct {
+	data []byte
+	pos  int
+	mode string
+	r    *rand.Rand
+}
+
+func newDelivery(data []byte, flag string) *delivery {
+	d := &delivery{data: data}
+	if k := strings.IndexByte(flag, '/'); k >= 0 && len(flag) >= k+4 {
+		d.mode = flag[k+1 : k+4]
+		d.r = rand.New(rand.NewSource(int64(atoi(flag[k+4:]))))
+		if d.mode == "one" && d.r.Intn(2) == 0 {
+			d.mode = "1eo" // one byte at a time, the last one together with EOF
+		}
+	}
+	return d
+}
+
+func (d *delivery) Len() int { return len(d.data) - d.pos }
+
+func (d *delivery) Read(p []byte) (int, error) {
+	rem := len(d.data) - d.pos
+	if rem == 0 {
+		return 0, io.EOF
+	}
+	n := len(p)
+	withEOF := false
+	switch d.mode {
+	case "eof":
+		withEOF = true
+	case "one":
+		n = 1
+	case "1eo":
+		n, withEOF = 1, true
+	case "rnd":
+		n, withEOF = 1+d.r.Intn(9), d.r.Intn(2) == 0
+	case "zer":
+		if d.r.Intn(3) == 0 {
+			return 0, nil
+		}
+		n = 1 + d.r.Intn(9)
+	}
+	if n > len(p) {
+		n = len(p)
+	}
+	if n > rem {
+		n = rem
+	}
+	copy(p, d.data[d.pos:d.pos+n])
+	d.pos += n
+	if withEOF && d.pos == len(d.data) {
+		return n, io.EOF
+	}
+	return n, nil
+}
+
 func runC01(f []string) string {
 	data := unhx(f[3])
 	var sb strings.Builder
 	switch f[0] {
 	case "rdb":
-		rd := bytes.NewReader(data)
+		rd := newDelivery(data, f[2])
 		l := rdb.NewLoader(rd)
 		if err := l.Header(); err != nil {
 			return "h=err"
